@@ -37,6 +37,8 @@ __datatypes_constructors = {}
 __datatypes_selectors = {}
 # Stores the names of functions defined by define-fun-rec / define-funs-rec
 __recursive_functions = set()
+# Stores the names of declared / defined functions that take arguments
+__functions_with_args = set()
 
 
 def get_bound_symbols(term):
@@ -90,6 +92,7 @@ def collect_information(exprs):  # noqa: C901
     global __datatypes_constructors
     global __datatypes_selectors
     global __recursive_functions
+    global __functions_with_args
     reset_information()
 
     for cmd in exprs:
@@ -129,6 +132,8 @@ def collect_information(exprs):  # noqa: C901
                 continue
             if cmd[2] == tuple():
                 __constants[cmd[1].data] = cmd[3]
+            else:
+                __functions_with_args.add(cmd[1].data)
             __definition_node_ids.add(cmd[1].id)
             __sort_lookup[cmd[1].data] = cmd[3]
         if name == 'define-fun':
@@ -144,6 +149,8 @@ def collect_information(exprs):  # noqa: C901
                 continue
             if cmd[2] == tuple():
                 __constants[cmd[1]] = cmd[3]
+            else:
+                __functions_with_args.add(cmd[1].data)
             __defined_functions[cmd[1]] = (len(
                 cmd[2]), lambda args, cmd=cmd: __instantiate(cmd, args))
             __definition_node_ids.add(cmd[1].id)
@@ -251,6 +258,7 @@ def reset_information():
     global __datatypes_constructors
     global __datatypes_selectors
     global __recursive_functions
+    global __functions_with_args
     __constants = {}
     __defined_functions = {}
     __definition_node_ids = set()
@@ -261,6 +269,7 @@ def reset_information():
     __datatypes_constructors = {}
     __datatypes_selectors = {}
     __recursive_functions = set()
+    __functions_with_args = set()
 
 
 # General utilities
@@ -272,7 +281,11 @@ def get_variables_with_sort(var_sort):
     Requires that global information has been populated via
     ``collect_information``.
     """
-    return [v for v in __sort_lookup if __sort_lookup[v] == var_sort]
+    # the bare name of a function that takes arguments is not a term
+    return [
+        v for v in __sort_lookup
+        if __sort_lookup[v] == var_sort and v not in __functions_with_args
+    ]
 
 
 def is_declared(name):
